@@ -148,12 +148,16 @@ func HTTPClient.doReq
   assumes method != "GET" ==> reqCount == old(reqCount) + 1 && lastReqWasPrimary == (c.topology != nil && endpoint == old(c.topology.primary))
   assumes method == "GET" ==> reqCount == old(reqCount) && lastReqWasPrimary == old(lastReqWasPrimary)
   assumes c.topology != nil ==> TopoInv(c.topology)
+  // (ghost traces: the endpoint asked, whether the request failed, how many GETs so far)
+  modifies getCount, lastReqFailed, lastReqEp
+  assumes lastReqEp == endpoint && lastReqFailed == !isnil(result_1) && getCount == old(getCount) + ite(method == "GET", int(1), int(0))
 
 func HTTPClient.clusterHealthCheck
   modifies everything
   assumes c.topology != nil ==> TopoInv(c.topology)
-// discovery installs the ANNOUNCED LEADER as the primary and leaves the topology well-formed
-// (whether it terminates when every node keeps answering with an error is not decided)
+// discovery installs the ANNOUNCED LEADER as the primary and leaves the topology well-formed;
+// a node whose discovery request failed - whatever the failure - is marked dead before the next
+// one is chosen (as in callAny: what makes the loop end when no node answers)
 func HTTPClient.discover
   props C20
   requires ClientOK(c)
@@ -163,6 +167,7 @@ func HTTPClient.discover
   at topology.Update assert C20/discovery-installs-the-announced-leader: has(shards.Shards, shards.LeaderId) ==> primary == url2(box(shards.URIScheme), box(shards.Shards[shards.LeaderId].HTTPAddr))
   loop 1 modifies everything, reqCount, lastReqWasPrimary, lastUpdatePrimary
   loop 1 invariant ClientOK(c) && reqCount == old(reqCount) && lastReqWasPrimary == old(lastReqWasPrimary)
+  loop 1 invariant C20/failed-node-is-dead-before-the-next-attempt: getCount == old(getCount) || !lastReqFailed || (lastReqEp != nil && lastReqEp.dead)
   loop 2 modifies nothing
   loop 2 invariant C20/leader-seen-means-primary-set: visited(shards.LeaderId) ==> primary == url2(box(shards.URIScheme), box(shards.Shards[shards.LeaderId].HTTPAddr))
 
